@@ -37,6 +37,9 @@ pub const LISTEN_IP: IpAddr = IpAddr::V4(Ipv4Addr::new(127, 0, 0, 1));
 pub const DEAD_IP: IpAddr = IpAddr::V4(Ipv4Addr::new(127, 0, 0, 9));
 /// NTP server names the scripted KE server hands out
 pub const NTP_NAMES: [&str; 4] = ["n0.nts.verif.test", "n1.nts.verif.test", "n2.nts.verif.test", "n3.nts.verif.test"];
+/// names of key-exchange servers reached through SRV records (all served by the one scripted listener, which
+/// tells them apart by the TLS server name); the harness certificate is valid for them
+pub const KE_NAMES: [&str; 4] = ["k0.nts.verif.test", "k1.nts.verif.test", "k2.nts.verif.test", "k3.nts.verif.test"];
 /// `ntpd::daemon::spawn::NTS_TIMEOUT` (private constant): time limit of one key exchange. Only used to
 /// make `Stall` outlast it; a different value in the repo changes labels, never verdicts.
 pub const NTS_TIMEOUT_MS: u64 = 5000;
@@ -151,6 +154,8 @@ pub struct Exchange {
     pub probe: usize,
     /// NTPv4 server names the client asked not to get (record type 13... as sent)
     pub denied: Vec<String>,
+    /// TLS server name the client asked for
+    pub sni: Option<String>,
     /// what the server decided to do (recorded before anything is written)
     pub reply: Reply,
     /// the response / error record was written and the TLS stream shut down without an IO error
@@ -202,7 +207,7 @@ pub async fn start(script: Vec<KeAnswer>, honor_deny: bool, t0: Instant, probe: 
     let port = listener.local_addr()?.port();
     let state = Arc::new(Mutex::new(KeState::default()));
     let st = state.clone();
-    let acceptor = w_ntske::tls::acceptor();
+    let acceptor = w_ntske::tls::acceptor_multi();
     let task = tokio::spawn(async move {
         loop {
             let Ok((tcp, _)) = listener.accept().await else {
@@ -215,6 +220,7 @@ pub async fn start(script: Vec<KeAnswer>, honor_deny: bool, t0: Instant, probe: 
                     t_us: Instant::now().duration_since(t0).as_micros() as u64,
                     probe: probe.as_ref().map(|p| p()).unwrap_or(0),
                     denied: vec![],
+                    sni: None,
                     reply: Reply::Pending,
                     write_ok: false,
                 });
@@ -226,7 +232,10 @@ pub async fn start(script: Vec<KeAnswer>, honor_deny: bool, t0: Instant, probe: 
                 s.log[k].denied = denied;
                 s.log[k].reply = reply;
             };
-            let write_ok = handle(tcp, &acceptor, &answer, honor_deny, k, &record).await;
+            let note_sni = |name: Option<String>| {
+                st.lock().unwrap_or_else(|e| e.into_inner()).log[k].sni = name;
+            };
+            let write_ok = handle(tcp, &acceptor, &answer, honor_deny, k, &record, &note_sni).await;
             st.lock().unwrap_or_else(|e| e.into_inner()).log[k].write_ok = write_ok;
         }
     });
@@ -241,6 +250,7 @@ async fn handle(
     honor_deny: bool,
     k: usize,
     record: &(dyn Fn(Vec<String>, Reply) + Send + Sync),
+    note_sni: &(dyn Fn(Option<String>) + Send + Sync),
 ) -> bool {
     if matches!(answer, KeAnswer::DropTcp) {
         drop(tcp);
@@ -254,6 +264,8 @@ async fn handle(
             return false;
         }
     };
+    let own_name = tls.get_ref().1.server_name().map(|n| n.to_string());
+    note_sni(own_name.clone());
     let recs = match w_ntske::read_message(&mut tls).await {
         ReadMsg::Message(r) => r,
         _ => {
@@ -295,7 +307,7 @@ async fn handle(
         KeAnswer::Ok { servers, port, cookies, delay_ms } => {
             let texts: Vec<Option<String>> = servers.iter().map(|s| s.text()).collect();
             let is_denied = |t: &Option<String>| {
-                let name = t.clone().unwrap_or_else(|| KE_HOST.to_string());
+                let name = t.clone().unwrap_or_else(|| own_name.clone().unwrap_or_else(|| KE_HOST.to_string()));
                 denied.iter().any(|d| *d == name)
             };
             let server = if honor_deny {
